@@ -25,13 +25,14 @@ func main() {
 	entry := fs.String("entry", "", "only this harness entry")
 	noReplay := fs.Bool("no-replay", false, "skip native replay/validation")
 	workers := fs.Int("workers", 8, "parallel entries")
+	inner := fs.Int("inner", 6, "parallel workers inside one entry")
 	fs.Parse(os.Args[3:])
 	if t := os.Getenv("VERIF_TIER"); t == "quick" || t == "thorough" {
 		*tier = t
 	}
 	seed, _ := strconv.Atoi(os.Getenv("VERIF_SEED"))
 	cfg := check.Config{Repo: *repo, Verif: *verif, Property: arg, Tier: *tier, Seed: seed, Verbose: *verbose,
-		OnlyEntry: *entry, NoReplay: *noReplay, Workers: *workers}
+		OnlyEntry: *entry, NoReplay: *noReplay, Workers: *workers, Inner: *inner}
 	switch cmd {
 	case "run":
 		rc := check.Run(cfg)
